@@ -16,6 +16,7 @@
 #include <Eigen/Dense>
 #include <algorithm>
 #include <csignal>
+#include <malloc.h>
 #include <ctime>
 #include <nano/function.h>
 #include <nano/logger.h>
@@ -749,6 +750,16 @@ int main(int argc, char** argv)
     }
     const bool ell = stage == "ellipsoid";
     report_t   r("c03/" + stage, args);
+
+    // Determinism: bundle_t::delete_largest reads m_alphas(2), a slot that is never written when bundle::max_size = 2
+    // (src/solver/bundle.cpp:105), so those runs depend on what malloc happens to return. glibc's M_PERTURB gives fresh
+    // heap memory a fixed content: byte 0xAA.. = a tiny negative double (the same branch as zero-filled fresh pages:
+    // every cut is dropped and only the aggregate is kept). C03_PERTURB=128 (content 0x7F.. = 1.4e306) reproduces the
+    // other branch: nothing is dropped and bundle_t::append writes past the end of the bundle (bundle.cpp:148).
+    const auto* const perturb_env = std::getenv("C03_PERTURB");
+    const int         perturb     = perturb_env != nullptr ? std::atoi(perturb_env) : 0x55;
+    mallopt(M_PERTURB, perturb);
+    r.axis("heap.M_PERTURB", jint(perturb));
 
     // tier-dependent alphabets (overridable for experiments)
     const auto ns     = parse_list(args.get("ns", args.thorough() ? "1,2,3,4,6,8" : "1,2,3"));
